@@ -724,7 +724,7 @@ func check(id, tier string) int {
 	fmt.Printf("%s %s: runs=%d nontrivial_distinct=%d steps=%d sim_time=%.0fs aborted=%d crashes=%d collateral=%v wall=%.1fs exit=%d\n",
 		spec.ID, tier, a.sum.Runs, len(a.fps), a.sum.Steps, float64(a.sum.SimNanos)/1e9, a.aborted, len(a.crashes), a.collateral, wall, exit)
 	// keep the working directory small
-	if exit == 0 {
+	if exit == 0 && os.Getenv("VERIF_KEEP") == "" {
 		os.RemoveAll(filepath.Join(verifRoot, ".work", spec.ID))
 	}
 	return exit
